@@ -10,6 +10,8 @@ P_SLICES = [
     "(slice(None), slice(None, None, 2))",
     "['A:1', 'B:3']", "[('B', 2), ('A', 1)]",
 ]
+# a list that names a well twice: what it addresses is undocumented (not judged), but an accepted transfer still conserves
+DUP_SLICES = ["['A:1', ('B', 2), (1, 1)]", "[(2, 3), 'B:3']"]
 Q_SLICES = ["'A:1'", "(2, 2)", "1", "(slice(None), 2)", "slice(None)", "(slice(None), slice(1, 2))",
             "['A:2', 'B:1']", "[(1, 1)]"]
 
@@ -45,6 +47,14 @@ def history_alphabet():
         {'op': 'fill_to', 'obj': ['P', "(2, slice(None))"], 'solvent': 'dmso', 'q': '200 uL'},
         {'op': 'dilute', 'obj': 'B', 'solute': 'nacl', 'conc': '0.1 M', 'solvent': 'dmso'},
     ]
+    return a
+
+
+def duplicate_list_sweep():
+    a = []
+    for g in DUP_SLICES:
+        for q in ('6 uL', '2 mg', '15 umol', '0.0005 U'):
+            a += [T('A', ['P', g], q), T(['P', g], 'E', q), T(['P', g], ['Q', "(1, 1)"], q), T(['Q', "'A:1'"], ['P', g], q)]
     return a
 
 
